@@ -30,7 +30,7 @@ tiers: Dict[str, Dict[str, Any]] = {
                  "minimise_budget_s": 240},
 }
 
-LOCS = ["plain", "deep", "space", "relative"]
+LOCS = ["plain", "deep", "space", "relative", "in_snippets"]
 HISTORIES = ["absent", "empty", "other", "longer"]
 SNIPPET_VARIANTS = ["min", "min", "extra_valid", "invalid2", "invalid3"]
 
@@ -76,7 +76,7 @@ def describe() -> dict:
             "corpus incl. rejected models, or one aas_core_meta.v3 x target case) executed in "
             "3 (quick) / 12 (thorough) fresh interpreters that differ in PYTHONHASHSEED, heap "
             "junk, snippets listing order, output-dir location (plain/deep/space+unicode/"
-            "relative), output-dir history (absent/empty/foreign files/same-named longer "
+            "relative/beneath the snippets dir), output-dir history (absent/empty/foreign files/same-named longer "
             "files) and position of the case in the process; compared: rc, stdout up to the "
             "output path, stderr, sha256 of every file the run wrote; one evaluation = one execution of a case in one interpreter. distinct = distinct "
             "cases whose results were compared across >= 2 interpreters."
@@ -178,9 +178,17 @@ def child_main(spec_path: str) -> int:
                 random.Random(f"{child['order_seed']}:create:{idx}").shuffle(files)
                 for rel, content in files:  # creation order also varies
                     repo.write_tree(sdir, {rel: content})
+            if loc == "in_snippets" and case["snippets"] == "big":
+                loc = "plain"  # never write into the repository's fixture directory
             sub = {"plain": "o", "deep": "a/b/c/o", "space": "with space/ö ü/o",
-                   "relative": "rel/o"}[loc]
+                   "relative": "rel/o", "in_snippets": ""}[loc]
             out_abs = sb.path("out", sub)
+            if loc == "in_snippets":
+                out_abs = os.path.join(sdir, "generated", "o")
+                if hist in ("other", "longer"):
+                    # files already in the output dir would be *snippets* here, i.e. a different
+                    # input, not a different history of the same input
+                    hist = "empty"
             os.makedirs(os.path.dirname(out_abs), exist_ok=True)
             if hist != "absent":
                 os.makedirs(out_abs)
@@ -217,7 +225,7 @@ def child_main(spec_path: str) -> int:
             written = set()
             out_rel = os.path.relpath(out_abs, sb.root)
             for ev in actor.audit:
-                if ev[0] == "open" and ev[3] == "w" and ev[1] == "out":
+                if ev[0] == "open" and ev[3] == "w" and ev[1] in ("out", "snippets"):
                     if ev[2].startswith(out_rel + os.sep):
                         written.add(os.path.relpath(ev[2], out_rel))
             files = {}
